@@ -61,6 +61,34 @@ Theorem C43_mjx_plane_sphere :
 Proof. exact mjx_plane_sphere_eq. Qed.
 Print Assumptions C43_mjx_plane_sphere.
 
+(* stiffness and damping of the reference acceleration aref = -B vel - K imp pos (C: getsolparam + mj_makeImpedance; MJX: constraint._kbi):
+   for a solref of one sign, dmax inside [mjMINIMP, mjMAXIMP] and no mjMINVAL guard firing the two formulations give the same (K, B),
+   with and without the REFSAFE clamp of the time constant *)
+Theorem C43_mjx_kb :
+  forall (refsafe : bool) (h s0 s1 dmax : R),
+    (0 < s0 /\ 0 < s1) \/ (s0 < 0 /\ s1 < 0) ->
+    0 < h -> Rdec 1 (-4) <= dmax <= Rdec 9999 (-4) ->
+    (forall tc : R, s0 <= tc -> Rdec 1 (-15) < dmax * dmax * tc * tc * s1 * s1 /\ Rdec 1 (-15) < dmax * tc) ->
+    Rdec 1 (-15) < dmax * dmax -> Rdec 1 (-15) < dmax ->
+    mjx_kb refsafe h s0 s1 dmax = c_kb refsafe h s0 s1 dmax.
+Proof. exact mjx_kb_eq. Qed.
+Print Assumptions C43_mjx_kb.
+
+(* what K and B mean.  Standard form (timeconst, dampratio): K = 1/(dmax^2 tc^2 dr^2), B = 2/(dmax tc), hence B^2 = 4 K dr^2: the reference
+   dynamics has damping ratio dr.  Direct form (-stiffness, -damping): K dmax^2 = stiffness and B dmax = damping (B is divided by dmax ONCE) *)
+Theorem C43_kb_meaning :
+  (forall (h tc dr dmax : R),
+     0 < tc -> 0 < dr -> Rdec 1 (-4) <= dmax <= Rdec 9999 (-4) ->
+     Rdec 1 (-15) < dmax * dmax * tc * tc * dr * dr -> Rdec 1 (-15) < dmax * tc ->
+     let '(K, B) := c_kb false h tc dr dmax in
+     K = 1 / (dmax * dmax * tc * tc * dr * dr) /\ B = 2 / (dmax * tc) /\ B * B = 4 * K * (dr * dr)) /\
+  (forall (refsafe : bool) (h k b dmax : R),
+     0 < k -> 0 < b -> Rdec 1 (-4) <= dmax <= Rdec 9999 (-4) -> Rdec 1 (-15) < dmax * dmax -> Rdec 1 (-15) < dmax ->
+     let '(K, B) := c_kb refsafe h (- k) (- b) dmax in
+     K * (dmax * dmax) = k /\ B * dmax = b).
+Proof. exact (conj c_kb_standard c_kb_direct). Qed.
+Print Assumptions C43_kb_meaning.
+
 (* non-vacuity: the hypotheses hold for ordinary values and the three zones are all reached *)
 Example C43_example :
   (0 < 1 /\ Rdec 1 (-15) <= 1 * 1 * (1 + 1 * 1)) /\
